@@ -25,6 +25,7 @@ type Env struct {
 	callResult *Val
 	specDepth  int
 	typeFn     *ssa.Function
+	callArgs   []Val
 }
 
 func (e *Engine) envFor(st *State, fr *FrameSt, old *State) *Env {
@@ -75,6 +76,12 @@ func (env *Env) lookupIdent(name string) (Val, bool) {
 	}
 	if name == "callresult" && env.callResult != nil {
 		return *env.callResult, true
+	}
+	if strings.HasPrefix(name, "callarg") && env.callArgs != nil {
+		var i int
+		if _, err := fmt.Sscanf(name, "callarg%d", &i); err == nil && i < len(env.callArgs) && (env.callArgs[i].K != kTerm || env.callArgs[i].T != "") {
+			return env.callArgs[i], true
+		}
 	}
 	if strings.HasPrefix(name, "callresult") && env.callResult != nil && env.callResult.K == kTuple {
 		var i int
@@ -474,7 +481,7 @@ func (env *Env) selectField(base Val, name string) Val {
 	}
 	if h, srt, ft, ok := e.absFieldOf(base.Typ, name); ok {
 		hm := e.heapGet(env.st, h, srt)
-		return term(fmt.Sprintf("(select %s %s)", hm, base.T), ft)
+		return term(fmt.Sprintf("(select %s %s)", hm, e.absRef(base)), ft)
 	}
 	switch t := base.Typ.Underlying().(type) {
 	case *types.Pointer:
@@ -574,7 +581,21 @@ func (env *Env) evalCall(n ECall) Val {
 					return env.applySpec(sf, n.Args)
 				}
 				if q == "errors.Is" {
-					return env.errorsIs(env.eval(n.Args[0]), env.eval(n.Args[1]))
+					ea := env.coerceTo(env.eval(n.Args[0]), types.Universe.Lookup("error").Type())
+					eb := env.coerceTo(env.eval(n.Args[1]), types.Universe.Lookup("error").Type())
+					return env.errorsIs(ea, eb)
+				}
+				// a Go function of another package used as a pure function
+				if obj := e.P.lookupQualified(id.Name, sel.Name, env.pkg); obj != nil {
+					if fo, ok := obj.(*types.Func); ok {
+						if fn := e.P.prog.FuncValue(fo); fn != nil {
+							var args []Val
+							for i, a := range n.Args {
+								args = append(args, env.coerceTo(env.eval(a), fn.Params[i].Type()))
+							}
+							return e.pureApp(env.st, fn, args)
+						}
+					}
 				}
 				limitf("contract does not bind: %s", q)
 			}
